@@ -440,7 +440,7 @@ pub fn c20(out: &mut Out, ex: &mut Exec, seed: u64, thorough: bool, debug_info: 
 
 /// sprinkle comments / blank lines with awkward characters into a source text (only where the lexer allows anything)
 pub fn awkward_source(rng: &mut Rng, text: &str) -> String {
-    let junk = |rng: &mut Rng| -> String { (0..rng.below(10)).map(|_| *rng.pick(&['"', '\\', '\t', '\'', ' ', '|', '=', '#', '.', 'é', '→', '😀', '\u{7f}', '\u{1}', '\u{0}', '\r', '\u{a0}', '\u{2028}', 'a', '?', '{', '}', 'u', 'x', '0', 'n'])).collect() };
+    let junk = |rng: &mut Rng| -> String { (0..rng.below(10)).map(|_| if rng.chance(1, 6) { rng.pick(&[" | ", " | x | ", "====", "\\u{41}", "\\n", "????", " |", "| ", "LINE | ADDR | SOURCE", ".TEXT"]).to_string() } else { rng.pick(&['"', '\\', '\t', '\'', ' ', '|', '=', '#', '.', 'é', '→', '😀', '\u{7f}', '\u{1}', '\u{0}', '\r', '\u{a0}', '\u{2028}', 'a', '?', '{', '}', 'u', 'x', '0', 'n']).to_string() }).collect() };
     let mut out = String::new();
     for l in text.split_inclusive('\n') {
         if rng.chance(1, 5) { out.push_str(&" ".repeat(rng.below(4) as usize)); if rng.bool() { out.push(';'); out.push_str(&junk(rng).replace('\n', "")); } out.push_str(if rng.chance(1, 3) { "\r\n" } else { "\n" }); }
